@@ -113,6 +113,7 @@ def run(rep):
     genuine = [p for p in problems if p[2] == 'impl-violates-spec']
     others = [p for p in problems if p[2] != 'impl-violates-spec']
     if genuine:
+        genuine.sort(key=lambda p: len(p[0]))   # the shortest failing sequence is the replay
         seq, idx, kind, detail = genuine[0]
         rep.violation('slot isolation broken (%d sequences): %s' % (len(genuine), detail), seq)
     elif others:
